@@ -27,12 +27,21 @@ DAG = {
                           (5, 2, 'Mixed5', 'NoDef', True)],
     ('C03', 'quick'): [(4, 3, 'AllIface4', 'NoDef', True),
                        (4, 3, 'AllIface4', 'NoDef', False),
-                       (4, 2, 'Mixed4', 'NoDef', True)],
+                       (4, 2, 'Mixed4', 'NoDef', True),
+                       # base-less declarations below three bases: the legacy
+                       # fallback with a specification that has no path to
+                       # the root
+                       (4, 3, 'Mixed4', 'NoDef', False),
+                       # interfaces with explicit Interface base + base-less
+                       # class-specification-like declarations: SroValid only
+                       (4, 3, 'Mixed4', 'NoDef', True, 'rootless')],
     ('C03', 'thorough'): [(4, 3, 'AllIface4', 'NoDef', True),
                           (4, 3, 'AllIface4', 'NoDef', False),
                           (5, 3, 'AllIface5', 'NoDef', False),
                           (5, 2, 'AllIface5', 'NoDef', True),
-                          (5, 2, 'Mixed5', 'NoDef', True)],
+                          (5, 2, 'Mixed5', 'NoDef', True),
+                          (4, 3, 'Mixed4', 'NoDef', True, 'rootless'),
+                          (5, 3, 'Mixed5', 'NoDef', True, 'rootless')],
     ('C15', 'quick'): [(4, 2, 'AllIface4', 'AnyDef', False),
                        (3, 2, 'AllIface3', 'AnyDef', True)],
     ('C15', 'thorough'): [(4, 3, 'AllIface4', 'AnyDef', False),
@@ -79,7 +88,8 @@ def nontrivial(case_obs):
     return any(len(v) >= 3 for v in vals)
 
 
-def replay(build, v, pid, mode, N, isiface, rootx, cases, budget):
+def replay(build, v, pid, mode, N, isiface, rootx, cases, budget,
+           rootless=False):
     if not cases:
         return
     rnd = random.Random(seed())
@@ -91,7 +101,8 @@ def replay(build, v, pid, mode, N, isiface, rootx, cases, budget):
         for sh in shard(cases, NCPU // 2):
             jobs.append((impl, {'mode': mode, 'prop': pid, 'N': N,
                                 'isiface': ISIFACE[isiface],
-                                'root_explicit': rootx, 'cases': sh}))
+                                'root_explicit': rootx, 'cases': sh,
+                                'valid_only': rootless}))
     for (impl, job), r in zip(jobs, run_children(build,
                                                  'replay_specgraph.py',
                                                  jobs)):
@@ -159,15 +170,20 @@ def main(pid, tier):
     budget = 4000 if tier == 'quick' else 400000
     exhaustive = True
     with Build() as build:
-        for (N, maxb, isif, defc, rootx) in DAG[(pid, tier)]:
+        for spec_ in DAG[(pid, tier)]:
+            (N, maxb, isif, defc, rootx) = spec_[:5]
+            rootless = len(spec_) > 5
             cfg = make_cfg(build.dir, 'dag', {
                 'N': N, 'MaxB': maxb, 'IsIface': '<-' + isif,
                 'DefChoices': '<-' + defc, 'RootExplicit': tla_bool(rootx),
+                'DeclRootless': tla_bool(rootless),
                 'PinnedC03': 'FALSE', 'PinnedC15': 'FALSE'},
-                invariants=INV[pid] + ['Dump'])
+                invariants=(['TypeOK', 'SroValid', 'SroSetIsReach']
+                            if rootless else INV[pid]) + ['Dump'])
             res = run_tlc('MC_SpecGraph_dag', cfg, scratch=build.dir)
-            name = 'dag N=%d MaxB=%d %s %s root_explicit=%s' % (
-                N, maxb, isif, defc, rootx)
+            name = 'dag N=%d MaxB=%d %s %s root_explicit=%s%s' % (
+                N, maxb, isif, defc, rootx,
+                ' rootless-declarations' if rootless else '')
             v.add_tlc(res, name)
             if res.violated:
                 raise MachineryError(
@@ -180,7 +196,8 @@ def main(pid, tier):
                                      % (len(cases), res.distinct))
             v.cov['distinct_nontrivial'] += sum(1 for c in cases
                                                 if nontrivial(c))
-            done = replay(build, v, pid, 'dag', N, isif, rootx, cases, budget)
+            done = replay(build, v, pid, 'dag', N, isif, rootx, cases, budget,
+                          rootless=rootless)
             if len(done) < len(cases):
                 exhaustive = False
             v.sample({'config': name, 'case': {k: cases[-1][k] for k in
